@@ -4,6 +4,28 @@ import json, os
 HERE = os.path.dirname(os.path.dirname(os.path.abspath(__file__)))
 
 CLAIMS = {
+    "C01": ("agent-origin discipline: inductive invariant over every Agent construction / copy / store site + correction-chain shape (ast, alias tracking)",
+            "Static inductive invariant: all 130+ Agent constructor sites, all model_copy sites, all stores to core fields and all "
+            "aliases of a position list are enumerated; the only explicit position/cost/fitness construction is the root whose "
+            "position is the output of initial_solution -> correct_solution -> Variable.correct; copies preserve it; nothing "
+            "rewrites it. Decides the routing clause of membership for every optimizer, input, configuration and mode.",
+            "Finiteness (NaN through np.clip), exact dimension and permutation encoding are not decided; Variable.correct (C13); "
+            "pydantic summaries; closed-world guard R0.",
+            "DESIGN.md 4/C01"),
+    "C02": ("pairing invariant at the root constructor (reaching definitions) + copy discipline + sign partial evaluation + idempotence by primitive composition",
+            "Static: the name evaluated by _fcn, the stored position, cost and fitness are tied by reaching definitions in the single "
+            "root; every other generator copies the triple; _fcn and both sign-restoration closures are partially evaluated under "
+            "MIN/MAX and must compose to the identity by copy; every Variable.correct must be idempotent by primitive composition "
+            "(the evaluated position is corrected twice). Known findings: ImperialistCompetitive reports empire totals; "
+            "PermutationVariable.correct = argsort is not idempotent.",
+            "Deterministic objective; fitness formula and np.dot semantics not decided; pydantic summaries; closed-world guard R0.",
+            "DESIGN.md 4/C02"),
+    "C15": ("immutability of recorded core state (ORG scans) + append-only history + direction typing of result-ranking calls",
+            "Static: no store/in-place mutation can reach position/cost/fitness of an existing agent (all sites enumerated, aliases "
+            "followed), sign restoration is by copy, evolution is only appended with freshly packaged populations; every ranking of "
+            "result data in utils passes a direction that originates from the result, which records it.",
+            "Auxiliary agent fields are outside the observable; pydantic copies list fields on validation; closed-world guard R0.",
+            "DESIGN.md 4/C15"),
     "C08": ("flow-sensitive typestate walk of one optimize() run per class: Leak = upward-exposed fields ∩ written fields (ast, MRO inlining)",
             "Static typestate/effect analysis over 84 class contexts: optimize() is walked with all self/super/closure calls "
             "inlined through the MRO; a field read, read-modify-written or mutated in place (aliases and helper-object "
